@@ -976,6 +976,64 @@ pub fn nested_type_body(shape: &str, depth: usize, in_prepared: bool) -> Vec<u8>
     w
 }
 
+/// A Rows (or Prepared) result body whose single column has custom type id 0x0000 with the given class-string bytes
+/// (raw bytes: the [string] may deliberately hold invalid UTF-8).
+pub fn custom_type_body(class: &[u8], in_prepared: bool) -> Vec<u8> {
+    let mut w: Vec<u8> = Vec::with_capacity(class.len() + 64);
+    let put_s = |w: &mut Vec<u8>, s: &[u8]| {
+        w.extend_from_slice(&(s.len() as u16).to_be_bytes());
+        w.extend_from_slice(s);
+    };
+    if in_prepared {
+        w.extend_from_slice(&4i32.to_be_bytes());
+        w.extend_from_slice(&[0, 1, 0x42]);
+        w.extend_from_slice(&1i32.to_be_bytes());
+        w.extend_from_slice(&1i32.to_be_bytes());
+        w.extend_from_slice(&0i32.to_be_bytes());
+    } else {
+        w.extend_from_slice(&2i32.to_be_bytes());
+        w.extend_from_slice(&1i32.to_be_bytes());
+        w.extend_from_slice(&1i32.to_be_bytes());
+    }
+    put_s(&mut w, b"ks");
+    put_s(&mut w, b"t");
+    put_s(&mut w, b"c");
+    w.extend_from_slice(&0u16.to_be_bytes());
+    put_s(&mut w, class);
+    if in_prepared {
+        w.extend_from_slice(&4i32.to_be_bytes());
+        w.extend_from_slice(&0i32.to_be_bytes());
+    } else {
+        w.extend_from_slice(&0i32.to_be_bytes());
+    }
+    w
+}
+
+/// Class-string templates with one hole (`{}`): every identifier / hex / number position of the TypeParser grammar.
+pub fn class_templates() -> Vec<(&'static str, &'static str)> {
+    vec![
+        ("udt.keyspace", "org.apache.cassandra.db.marshal.UserType({},61,62:Int32Type)"),
+        ("udt.hexname", "org.apache.cassandra.db.marshal.UserType(ks,{},62:Int32Type)"),
+        ("udt.hexfield", "UserType(ks,61,{}:Int32Type)"),
+        ("udt.hexfield2", "UserType(ks,61,62:Int32Type,{}:UTF8Type)"),
+        ("udt.fieldtype", "UserType(ks,61,62:{})"),
+        ("udt.nested.hexname", "ListType(FrozenType(UserType(ks,{},62:MapType(Int32Type,UserType(k2,63,64:Int32Type)))))"),
+        ("udt.nested.hexfield", "MapType(Int32Type,UserType(ks,61,62:UserType(k2,63,{}:Int32Type)))"),
+        ("hexprefix", "{}:Int32Type"),
+        ("identifier", "{}"),
+        ("identifier.params", "{}(Int32Type)"),
+        ("list.param", "ListType({})"),
+        ("map.param2", "MapType(Int32Type,{})"),
+        ("tuple.param", "TupleType(Int32Type,{},UTF8Type)"),
+        ("vector.dimension", "VectorType(Int32Type,{})"),
+        ("vector.param", "VectorType({},3)"),
+    ]
+}
+
+/// Substitution alphabet: hex digits, non-hex ASCII alphanumerics and identifier punctuation, and 2-, 3-, 4-byte
+/// UTF-8 alphanumerics (`char::is_alphanumeric` accepts them), so multi-byte characters land on odd and even offsets.
+pub const CLASS_SYMBOLS: [&str; 10] = ["a", "0", "7", "g", "_", ".", "\u{e9}", "\u{663}", "\u{4e2d}", "\u{1d7d8}"];
+
 pub fn plain_frame(opcode: u8, flags: u8, stream: i16, body: &[u8]) -> Vec<u8> {
     let mut f = Vec::with_capacity(9 + body.len());
     f.push(0x84);
